@@ -186,9 +186,21 @@ func (c *Ctx) Violate(kind, what, signature string, cs map[string]interface{}) {
 			return
 		}
 	}
-	if len(c.Viol) >= 5 {
+	// one report per distinct failing case
+	key := signature
+	for _, f := range []string{"doc_hex", "msg_hex", "history", "input_hex", "blob_hex", "lit"} {
+		if v, ok := cs[f]; ok {
+			key = fmt.Sprint(f, v)
+			break
+		}
+	}
+	if c.seenViol == nil {
+		c.seenViol = map[string]bool{}
+	}
+	if c.seenViol[key] || len(c.Viol) >= 8 {
 		return
 	}
+	c.seenViol[key] = true
 	c.writeReplay(kind, what, "", cs, false)
 }
 
